@@ -677,7 +677,8 @@ def search_in_module(inference_state, module_context, names, wanted_names,
                     def_ = classes.Completion(
                         inference_state, n2,
                         stack=None,
-                        like_name_length=len(last_name),
+                        # Not len(last_name): lower() can change the length.
+                        like_name_length=len(wanted_names[-1]),
                         is_fuzzy=fuzzy,
                     )
                 else:
